@@ -44,7 +44,11 @@ class StubDist:
             return Tensor(shp, lambda idx: DrawRI(self.id, nu, idx[0], _toreal(ts[0].fn(ia(idx))), _toreal(ts[1].fn(ib(idx)))))
         shape = tuple(sample_shape) if isinstance(sample_shape, (tuple, list)) else (sample_shape,)
         if not shape:
-            return Sym(DrawR(self.id, nu, p[0], p[1]))
+            d = DrawR(self.id, nu, p[0], p[1])
+            if self.name == "uniform":
+                Assumed.note("A-TFP: a uniform draw lies in [low, high)")
+                engine().assume(z3.Implies(p[1] > p[0], z3.And(d >= p[0], d < p[1])))
+            return Sym(d)
         if len(shape) == 2:
             return Tensor(shape, lambda idx: DrawRI2(self.id, nu, idx[0], idx[1], p[0], p[1]))
         if len(shape) != 1:
